@@ -71,7 +71,7 @@ Proof. exact every_path_test_is_necessary_l. Qed.
 Print Assumptions every_path_test_is_necessary.
 
 (* The policy of the pinned code: a test it makes refuses its witness at that site; a test it lacks lets the witness
-   change a protected cell.  The 23 missing tests are listed (known findings). *)
+   change a protected cell.  The 19 missing tests are listed (known findings). *)
 Theorem pmech_rejects_where_checked : forall st, site_occurs st = true -> pmech st = true ->
   rejected_at pmech (pwitness st) st.
 Proof. intros st H M. exact (proj1 (pmech_sites_l st H) M). Qed.
@@ -82,10 +82,9 @@ Theorem pmech_missing_tests_refuted :
     [PLast CRootIdx FSet; PLast CRootIdx FOp; PLast CMidIdx FSet; PLast CMidIdx FOp; PInner CChain; PInner CRootIdx; PInner CMidIdx;
      PSub SkWhole false RInStruct; PSub SkWhole false RInPlain; PSub SkWhole true RInPlain;
      PSub SkMember false RInStruct; PSub SkMember false RInPlain;
-     PSub SkMemberElem false RRoot; PSub SkMemberElem false REdge; PSub SkMemberElem false RInStruct;
-     PSub SkMemberElem false RInPlain; PSub SkMemberElem true RInPlain;
-     PSub SkRootElem false RRoot; PSub SkRootElem false RInStruct; PSub SkRootElem false RInPlain;
-     PSub SkRootElem true RRoot; PSub SkRootElem true RInStruct; PSub SkRootElem true RInPlain] /\
+     PSub SkMemberElem false RInStruct; PSub SkMemberElem false RInPlain; PSub SkMemberElem true RInPlain;
+     PSub SkRootElem false RInStruct; PSub SkRootElem false RInPlain;
+     PSub SkRootElem true RInStruct; PSub SkRootElem true RInPlain] /\
   forall st, site_occurs st = true -> pmech st = false -> changes_protected pmech (pwitness st).
 Proof. split; [exact pmech_missing_list | intros st H M; exact (proj2 (pmech_sites_l st H) M)]. Qed.
 Print Assumptions pmech_missing_tests_refuted.
